@@ -14,6 +14,57 @@ def fa():
     return env.load()
 
 
+def revised_schema(ch, schema):
+    """A later revision of `schema`: same type names, other definitions (enum gains a symbol in
+    front, fixed changes size, records gain a leading field or list their fields in another
+    order).  Handed to an append re-open, where the header's schema -- not this one -- decides."""
+    changed = [0]
+
+    def walk(t):
+        if isinstance(t, list):
+            return [walk(b) for b in t]
+        if not isinstance(t, dict):
+            return t
+        t = dict(t)
+        k = t.get("type")
+        if k == "enum":
+            if ch.chance(70):
+                t["symbols"] = ["ZZ_REVISED"] + list(t["symbols"])
+                changed[0] += 1
+        elif k == "fixed":
+            if ch.chance(70) and "logicalType" not in t:
+                t["size"] = t["size"] + 1
+                t.pop("default", None)
+                changed[0] += 1
+        elif k in ("record", "error"):
+            fields = []
+            for f in t.get("fields", []):
+                f = dict(f)
+                f["type"] = walk(f["type"])
+                fields.append(f)
+            how = ch.draw(4)
+            if how == 1:
+                fields.insert(0, {"name": "zz_revised", "type": "long", "default": 7})
+                changed[0] += 1
+            elif how == 2 and len(fields) > 1:
+                fields.reverse()
+                changed[0] += 1
+            elif how == 3 and fields:
+                fields.pop()
+                changed[0] += 1
+            t["fields"] = fields
+        elif k == "array":
+            t["items"] = walk(t["items"])
+        elif k == "map":
+            t["values"] = walk(t["values"])
+        elif isinstance(k, (dict, list)):
+            t["type"] = walk(k)
+        return t
+
+    out = walk(json.loads(json.dumps(schema)))
+    return out if changed[0] else None
+
+
 def draw_codec(ch, heavy_pct=25):
     """null / deflate mostly; bzip2 and xz (slow, ~ms per block) less often."""
     if ch.chance(heavy_pct):
@@ -39,12 +90,14 @@ class Scenario:
         self.dprobes = {}
         self.profile = "small"
         self.sync_interval_hint = None
+        self.flushes = None   # None: one fastavro.writer() call; else Writer class, flush after these record indices (-1: before the first)
 
     def describe(self):
         return {"schema": self.schema, "profile": self.profile, "records": jsonable(self.records[:6]),
                 "n_records": len(self.records), "codec": self.codec,
                 "sync_interval": self.sync_interval, "sync_marker": jsonable(self.sync_marker),
-                "metadata": self.metadata, "level": self.level, "parsed": self.parsed}
+                "metadata": self.metadata, "level": self.level, "parsed": self.parsed,
+                "flushes": sorted(self.flushes) if self.flushes is not None else None}
 
 
 def container_scenario(ch, max_records=12, top="any", serial=True, logical=False, hints=False,
@@ -114,6 +167,9 @@ def container_scenario(ch, max_records=12, top="any", serial=True, logical=False
         # the codec does not have)
         sc.level = ch.pick({"deflate": [0, 1, 6, 9, -1], "bzip2": [1, 6, 9], "xz": [0, 1, 6, 9]}.get(sc.codec, [1, 6, 9]))
     sc.parsed = ch.chance(40)
+    if ch.chance(15):
+        # grouping into blocks decided by the caller: Writer class with explicit flushes in between
+        sc.flushes = {i for i in range(-1, len(sc.records)) if ch.chance(35)}
     return sc
 
 
@@ -192,8 +248,20 @@ def fa_write(sc, fo, records=None):
         kw["codec_compression_level"] = sc.level
     if sc.sync_marker:
         kw["sync_marker"] = sc.sync_marker
-    F.writer(fo, schema, sc.records if records is None else records, codec=sc.codec,
-             sync_interval=sc.sync_interval, validator=sc.validator, **kw)
+    recs = sc.records if records is None else records
+    if sc.flushes is None:
+        F.writer(fo, schema, recs, codec=sc.codec, sync_interval=sc.sync_interval, validator=sc.validator, **kw)
+        return
+    if "codec_compression_level" in kw:
+        kw["compression_level"] = kw.pop("codec_compression_level")
+    w = F.write.Writer(fo, schema, sc.codec, sc.sync_interval, validator=sc.validator, **kw)
+    if -1 in sc.flushes:
+        w.flush()
+    for i, r in enumerate(recs):
+        w.write(r)
+        if i in sc.flushes:
+            w.flush()
+    w.flush()
 
 
 def fa_file(sc):
